@@ -86,7 +86,7 @@ func c06NewObject(p *prog) {
 				keys[i] = keys[r.Intn(i)]
 			}
 			vals[i] = p.anyVal(nil, 2)
-			args = append(args, keys[i], h.Arg(vals[i]))
+			args = append(args, keys[i], p.sized(h.Arg(vals[i])))
 		}
 		p.step("NewObject", fmt.Sprintf("%s = NewObject(%s)", n.Name(), showPairs(keys, vals)), false, func() {
 			for i := range keys {
@@ -263,7 +263,7 @@ func c06Program(p *prog, steps int) {
 					continue
 				}
 				vals[i] = p.anyVal(o, 2)
-				args = append(args, keys[i], h.Arg(vals[i]))
+				args = append(args, keys[i], p.sized(h.Arg(vals[i])))
 			}
 			var ret at.Object
 			wasNative := make([]bool, len(vals))
